@@ -315,6 +315,9 @@ void sim_violation_deferred(const char *cls, const char *fmt, ...) {
 	if (sim_trace_on) fprintf(stderr, "[t=%llu s=%llu f=%d] DEFERRED %s: %s\n", (unsigned long long)S.now, (unsigned long long)S.step, S.cur, S.dclass, S.ddetail);
 }
 int sim_violated(void) { return S.violated; }
+/* fair-finish: from now on strict round-robin among the runnable fibers. Liveness ("it fires / is delivered once
+ * the faults stopped") may only be judged under a fair scheduler: a PCT priority order can starve a thread for ever */
+void sim_fair_finish(void) { if (!S.fair) { S.fair = 1; sim_probe("sched.fair_finish_requested"); } }
 void sim_set_context_tag(const char *tag) { snprintf(S.ctx_tag, sizeof(S.ctx_tag), "%s", tag ? tag : ""); }
 const char *sim_cur_site(void) {
 	if (S.cur >= 0 && S.fb[S.cur].last_site) return S.fb[S.cur].last_site;
@@ -590,7 +593,12 @@ void sim_loop(void) {
 				t2 = sim_timers_next(); if (t2 < t) t = t2;
 				t2 = sim_children_next(); if (t2 < t) t = t2;
 				for (int i = 0; i < S.nfb; i++) if (S.fb[i].st == FB_BLOCKED && S.fb[i].wake_at && S.fb[i].wake_at < t) t = S.fb[i].wake_at;
-				if (t != UINT64_MAX && t > S.now) { S.now = t; sim_probe("sched.spin_time_jump"); continue; }
+				if (t != UINT64_MAX && t > S.now) {
+					/* the spinners burnt time up to the next event; now they get to look again (one round) */
+					S.now = t; sim_probe("sched.spin_time_jump");
+					for (int i = 0; i < n; i++) S.fb[run[i]].spinning = 0;
+					continue;
+				}
 			}
 		}
 		if (n == 0) {
